@@ -206,6 +206,12 @@ impl ReadXml for Maybe<Candidate> {
                             {
                                 reject_policy = true;
                             }
+                            (ResolveResult::Bound(XNM), Event::Start(tag))
+                                if tag.local_name().as_ref() == b"reject" =>
+                            {
+                                _ = reader.read_to_end(tag.to_end().name())?;
+                                reject_policy = true;
+                            }
                             (_, Event::Comment(_)) => continue,
                             (_, Event::End(tag)) if tag == end => break,
                             (ns, event) => {
@@ -283,6 +289,12 @@ impl ReadXml for Maybe<Installed> {
                             (ResolveResult::Bound(XNM), Event::Empty(tag))
                                 if tag.local_name().as_ref() == b"reject" =>
                             {
+                                default_reject = true;
+                            }
+                            (ResolveResult::Bound(XNM), Event::Start(tag))
+                                if tag.local_name().as_ref() == b"reject" =>
+                            {
+                                _ = reader.read_to_end(tag.to_end().name())?;
                                 default_reject = true;
                             }
                             (_, Event::Comment(_)) => continue,
@@ -379,6 +391,13 @@ impl<'i> BorrowedReadXml<'i> for Term<'i> {
                                 if tag.local_name().as_ref() == b"accept" && !accept =>
                             {
                                 tracing::trace!(?tag);
+                                accept = true;
+                            }
+                            (ResolveResult::Bound(XNM), Event::Start(tag))
+                                if tag.local_name().as_ref() == b"accept" && !accept =>
+                            {
+                                tracing::trace!(?tag);
+                                _ = reader.read_to_end(tag.to_end().name())?;
                                 accept = true;
                             }
                             (_, Event::Comment(_)) => continue,
